@@ -40,7 +40,9 @@ func (o Op) String() string {
 	if o.Tx > 0 {
 		s += fmt.Sprintf("[tx%d]", o.Tx-1)
 	}
-	if o.Key != "" || o.K == "set" {
+	if len(o.Key) > 80 {
+		s += fmt.Sprintf(" %q...(%d bytes)", o.Key[:24], len(o.Key))
+	} else if o.Key != "" || o.K == "set" {
 		s += fmt.Sprintf(" %q", o.Key)
 	}
 	if o.ID != 0 {
